@@ -176,6 +176,10 @@ Pre(s, op, a) ==
     [] op \in {"vset", "uset"} -> a.x \in Names /\ a.p \in Range(t[a.x].ph) /\ a.c \in PkgChems[t[a.x].pkg] /\ a.v >= 0
     [] op = "tset" -> a.x \in Names /\ ~Empty(t[a.x]) /\ \A i \in DOMAIN t[a.x].ph : ScalesExactly(t[a.x].fl[t[a.x].ph[i]], a.q) /\ a.q[1] > 0
     [] op = "ubad" -> a.x \in Names
+    \* "measured": a call whose result is not expressible in the integer state (bulk copy of one stream's mass / volume view into
+    \* another's, reset_flow with a phase change and volumetric units): the driver measures the read-back deviation (a.what names
+    \* the call); only used as the last step of a recorded history
+    [] op = "measured" -> TRUE
     [] op = "reset_thermo" -> a.x \in Names /\ a.pkg \in Pkgs /\ Alone(t, a.x) /\ \A c \in 1..NC : Tot(t[a.x])[c] # 0 => c \in PkgChems[a.pkg]
     [] OTHER -> FALSE
 
@@ -219,7 +223,7 @@ Post(s, op, a) ==
     [] op = "view_read" -> s
     [] op = "read" -> s
     [] op = "reset_thermo" -> [s EXCEPT !.st[a.x].pkg = a.pkg]
-    [] op \in {"vget", "tget", "uget", "ubad"} -> s
+    [] op \in {"vget", "tget", "uget", "ubad", "measured"} -> s
     [] op \in {"vset", "uset"} -> [s EXCEPT !.st = PutFlow(t, a.x, [t[a.x].fl EXCEPT ![a.p][a.c] = a.v])]
     [] op = "tset" -> [s EXCEPT !.st = PutFlow(t, a.x, FlOf(Range(t[a.x].ph), LAMBDA p : Scaled(t[a.x].fl[p], a.q)))]
     [] op = "set_T" -> [s EXCEPT !.st = PutTP(t, a.x, a.T, t[a.x].P)]
@@ -319,7 +323,9 @@ Judge(s, e) ==
       op == e.op
       p == Post(s, op, a)
   IN
-  IF e.op = "ubad" THEN      \* dimensionally inconsistent units must be rejected (whatever the exception class)
+  IF e.op = "measured" THEN
+       IF e.obs.exc # None THEN "exception" ELSE IF e.obs.diff > ReadTol THEN "view.readback_of_written_value" ELSE "ok"
+  ELSE IF e.op = "ubad" THEN      \* dimensionally inconsistent units must be rejected (whatever the exception class)
        IF e.obs.exc = None THEN "bad_units_accepted" ELSE IF e.post.st # s.st THEN "frame" ELSE "ok"
   ELSE IF e.op = "copy_flow_multi" THEN
        \* a refusal is accepted (C01 speaks of calls that move material); otherwise the copied chemicals arrive, the others stay (or are cleared when all
